@@ -466,9 +466,12 @@ let pd file =
               | POk ->
                   let left = if op = "trk" then -1 else iz o.po_left in
                   Printf.printf "%s OK %d %d %d %d %d\n" op (iz o.po_mode) (iz o.po_W) (iz o.po_lW) (iz o.po_nW) left;
+                  (* in half-rate mode the inverse MDCT (and the harness' capture) sees the lower half of the spectrum only *)
+                  let rec take n l = if n = 0 then [] else (match l with x :: t -> x :: take (n - 1) t | [] -> []) in
+                  let cut v = if !half = 1 then take (List.length v / 2) v else v in
                   if spec then List.iteri (fun c co ->
                     match co with
-                    | CSpectrum v -> Printf.printf "ch %d %s\n" c (hex_of_f32s v)
+                    | CSpectrum v -> Printf.printf "ch %d %s\n" c (hex_of_f32s (cut v))
                     | CFloor0 (a, l, r) -> Printf.printf "f0 %d %d %s %s\n" c (iz a) (hex_of_f32s l) (hex_of_f32s r)) o.po_chans;
                   let c = cfg_of d.ds_ident in
                   let blk = { k_W = (iz o.po_W = 1); k_gran = zi (int_of_string gran); k_seq = zi sq; k_eof = (eos = "1"); k_pcm = (op = "pkt") } in
